@@ -304,11 +304,14 @@ def r3(run, project, roles):
                        f"{name} requests input bytes itself: they are charged to no region", module=mod, node=y, func=name,
                        construct=f"byte request in {name}")
     cm = project.module(CONSTRAINTS)
-    for q, fn in cm.functions().items():
-        for y in walk_no_nested(fn):
-            if isinstance(y, ast.Yield) and (y.value is None or (isinstance(y.value, ast.Constant) and y.value.value is None)):
-                run.ob("R3", q == "consume_bytes", f"constraints.{q} L{y.lineno}: byte request",
-                       f"{q} requests bytes outside consume_bytes", module=cm, node=y, func=q, construct=f"byte request in {q}")
+    from .shared import locate_function
+    cbm, _cb = locate_function(project, cm, "consume_bytes")
+    for m_ in ([cm] if cbm in (None, cm) else [cm, cbm]):
+        for q, fn in m_.functions().items():
+            for y in walk_no_nested(fn):
+                if isinstance(y, ast.Yield) and (y.value is None or (isinstance(y.value, ast.Constant) and y.value.value is None)):
+                    run.ob("R3", q == "consume_bytes", f"{m_.name.split('.')[-1]}.{q} L{y.lineno}: byte request",
+                           f"{q} requests bytes outside consume_bytes", module=m_, node=y, func=q, construct=f"byte request in {q}")
     for modname, m in project.modules.items():
         for q, fn in m.functions().items():
             for c in walk_no_nested(fn):
@@ -455,7 +458,16 @@ def r5(run, project):
     run.require(n_paths >= 5, f"C03: only {n_paths} paths through SizeConstraint.bytes_parsed")
     ad = cm.functions().get("SizeConstraint.assert_done")
     obs = [s for s in walk_no_nested(ad) if isinstance(s, ast.Assign) and norm(s.targets[0]) == "self.is_obsolete"]
-    run.ob("R5", len(obs) == 1 and norm(obs[0].value) == "True", "closing retires the region", "assert_done does not retire the region",
+    # the region is retired on every way out: a store of True at statement level of the body before anything that can leave
+    # (return / raise / yield), and no store of anything else
+    early = False
+    for st in ad.body:
+        if st in obs:
+            early = True
+            break
+        if any(isinstance(x, (ast.Return, ast.Raise, ast.Yield, ast.YieldFrom)) for x in ast.walk(st)):
+            break
+    run.ob("R5", obs and early and all(norm(o.value) == "True" for o in obs), "closing retires the region", "assert_done does not retire the region",
            module=cm, node=ad, func="SizeConstraint.assert_done", construct="is_obsolete on close")
 
 
